@@ -41,6 +41,11 @@ CLAIMED = {
             "no insert can create an overlap (R3); every caller of the mutable-iterator escape hatch cleans up Top values afterwards (R4). That reads return the last write and the arithmetic of the overlap "
             "tests are not decided.",
             "3/C05", ""),
+    "C06": ("operator-table extraction from the merge / append / transform operations of the character-inclusion and brick string domains on normalised THIR terms: resolved set operator (union / intersection, min / max, +) per component and operand, operand order of concatenations, Top cases",
+            "Decides ONLY the operator tables: character-inclusion merge (Top-absorbing, certain = intersection, possible = union) and append (unions, Top operand), CharacterSet primitives, order of bricks in an append, the brick-wise join "
+            "(strings union, min of mins, max of maxes, thresholds only widen) and the bound formulas of three normalisation transforms. Each entry is a necessary condition of 'merge represents every member of either input' / 'append represents every concatenation' / "
+            "'normalisation keeps the language'. Language preservation of BricksDomain::normalize / widen as a whole (which rule fires when, list padding) is NOT decided.",
+            "3/C06", ""),
     "C07": ("field-visibility facts + writer enumeration (who-may-write); change=>enqueue pairing on path conditions; lost-node analysis of the dequeue loops on normalised terms; merge-test provenance (old vs new value); deliberately no ordering rule",
             "Decides the worklist invariant of fixpoint::Computation from which least-solution-for-any-order follows for monotone clients: state fields are private and written only by known methods (R1); "
             "every write of a node value enqueues that node's priority on the same path (R2); every dequeued node is processed or remembered, every outgoing edge updated, every Some result merged into the end node, "
@@ -76,6 +81,10 @@ CLAIMED = {
             "(R3) substitute_input_var is called with a replacement of the variable's size. A non-zero residual over free size symbols is reported as a violation (some well-sized input breaks it); values the interpreter cannot size are undecided. "
             "Not decided: sizes related only through data invariants of maps (expression propagation's table), pointer-size of load/store addresses, and the size-consistency of the extractor's P-Code.",
             "3/C12", ""),
+    "C13": ("table extraction from the conditional-refinement code of the pointer inference: match arms per comparison operator and constant side, resolved callee names of the bound methods, +-1 adjustments with their extreme-value guards, refined operand, negation / equality / inverse-arithmetic / boolean tables, polarity at conditional jumps; each entry compared with what the operator's semantics dictates",
+            "Decides ONLY the branch-refinement tables of the pointer inference (State::specialize_by_expression_result and friends, Context::specialize_conditional, the polarity handed over by the fixpoint): a wrong entry makes the analysis drop values that do occur on a branch or call a reachable block unreachable, i.e. each entry is a necessary condition of C13. "
+            "The property as a whole -- every concrete register value at every reached block is represented by the fixpoint's state, for all programs and initial states -- is NOT decided: no static argument in reach bounds what the abstract states contain (widening, stack tracking, memory model, the interval arithmetic of C02/C04).",
+            "3/C13", ""),
     "C14": ("Expression-slot universe derived from the Def/Jmp type definitions; slot-coverage of the read-flag setters per transfer function (receiver must be the returned state; order before the register overwrite); loop-shape analysis of the entry-state constructor; field-wise join analysis of AccessPattern::merge and the map strategy read from the field type; guard vocabulary of the parameter extraction",
             "Decides the conditions without which a register parameter cannot be recorded: every parameter register (integer and float inputs) is tracked from the entry (R1); every Expression slot of Def/Jmp is read-flagged "
             "on the returned state before the defined register is overwritten (R2); tracked ids are merged with the union strategy and flags joined with || (R3); extraction keeps every accessed register parameter (R4). "
@@ -142,8 +151,6 @@ CLAIMED = {
 }
 
 NOT_APPLICABLE = {
-    "C06": "language inclusion of brick/character-set string abstractions is a statement about sets of strings produced by normalisation/widening arithmetic; no clause of it is visible in the shape of the code (DESIGN.md 3/C06)",
-    "C13": "soundness of the pointer-inference fixpoint quantifies over programs x initial states x paths; every ingredient is numeric and no structural clause is a necessary condition of the property as stated (DESIGN.md 3/C13)",
 }
 
 ALL = ["C%02d" % i for i in range(1, 26)]
